@@ -173,6 +173,17 @@ def scRemoveLoop : Net → List Int → Net × Option Err
       | .error e => (n, some e)
     else (n, some .key)
 
+/-- `Lanelet.translate_rotate(t, 0)` (lanelet.py:580-640, angle 0: an exact translation): both boundaries move, a NEW
+    polygon object is created (`f`: its identity). -/
+def moveL (t : Pt) (f : Nat → Nat) (l : Lanelet) : Lanelet :=
+  { l with addr := f l.addr, left := l.left.map (·.add t), right := l.right.map (·.add t) }
+
+/-- `LaneletNetwork.translate_rotate(t, 0)` (lanelet.py:1946-1978): every lanelet is moved, `_buffered_polygons` is
+    re-read from the lanelets and the tree rebuilt. -/
+def moveNet (t : Pt) (f : Nat → Nat) (n : Net) : Net :=
+  createStrtree { n with lanelets := n.lanelets.map (moveL t f),
+                         buffered := (n.lanelets.map (moveL t f)).map (fun l => (l.id, l.poly)) }
+
 /-! ### Operation sequences -/
 
 inductive Op where
@@ -181,6 +192,7 @@ inductive Op where
   | addFrom (ls : List Lanelet)
   | copy (f : Nat → Nat)        -- deepcopy / pickle round trip; continue on the copy
   | scRemove (ids : List Int)   -- Scenario.remove_lanelet(list); an exception is caught by the caller, who goes on
+  | move (t : Pt) (f : Nat → Nat)  -- LaneletNetwork.translate_rotate(t, 0)
 
 def step (n : Net) : Op → Res Net
   | .add l r => .ok (addLanelet n l r).1
@@ -188,6 +200,7 @@ def step (n : Net) : Op → Res Net
   | .addFrom ls => .ok (addFromNetwork n ls).1
   | .copy f => .ok (copyNet f n)
   | .scRemove ids => .ok (scRemoveLoop n ids).1
+  | .move t f => .ok (moveNet t f n)
 
 /-- The exception an operation raises and its caller catches (`step` continues on the state it leaves). -/
 def caught (n : Net) : Op → Option Err
